@@ -14,6 +14,7 @@ var c09Constraints = map[System][]string{
 		"d.x || d.x", ">=d.d.d-l || ^d.d.d || d.d.d", "^d.d || ~d.x.x-l", "<d.d.d-0d", "d.d.d || d.d.d || d.d.d", // 24-28
 		"{(d.d.d:d.d.d]}", "{[d.d.d:d.d.d]}", "{[d.d.d:d.d.d)}", "{(d.d.d:d.d.d),[d.d.d:d.d.d]}", // spans written in the set syntax: open and closed ends 29-32
 		">=0.0.0-0.d <d.d.d", ">0.0.0-0.l", // 33-34: lower bounds just above the minimum version 0.0.0-0
+		">=d.0.0-l <=d.0.0 || >=d.0.0 <=d.0.0", // 35: two spans that may overlap and stay unmerged (a prerelease lower bound)
 	},
 	NPM: {
 		"d.d.d", ">=d.d.d", "<d.d.d", ">d.d.d", "<=d.d.d",
@@ -24,6 +25,7 @@ var c09Constraints = map[System][]string{
 		"d.x || d.x", ">=d.d.d-l || ^d.d.d || d.d.d", "^d.d || ~d.x.x-l", "<d.d.d-0d", "d.d.d || d.d.d || d.d.d",
 		"{(d.d.d:d.d.d]}", "{[d.d.d:d.d.d]}", "{[d.d.d:d.d.d)}", "{(d.d.d:d.d.d),[d.d.d:d.d.d]}", // spans written in the set syntax: open and closed ends
 		">=0.0.0-0.d <d.d.d", ">0.0.0-0.l",
+		">=d.0.0-l <=d.0.0 || >=d.0.0 <=d.0.0",
 	},
 	Cargo: {
 		"d.d.d", ">=d.d.d", "<d.d.d", ">d.d.d", "<=d.d.d",
